@@ -740,6 +740,19 @@ fn explore_attrs(idx: usize, e: &Entry, first: Option<usize>, thorough: bool, t:
                         continue;
                     }
                     check(&attrs, &base_key, "split", &items, t);
+                    // the same attributes written with bracket / brace delimiters
+                    if asg == 0 {
+                        for (open, close) in [("[", "]"), ("{", "}")] {
+                            let alt: Vec<String> = attrs
+                                .iter()
+                                .map(|a| match (a.find('('), a.rfind(")]")) {
+                                    (Some(i), Some(j)) if i < j => format!("{}{open}{}{close}]", &a[..i], &a[i + 1..j]),
+                                    _ => a.clone(),
+                                })
+                                .collect();
+                            check(&alt, &base_key, "other delimiters", &items, t);
+                        }
+                    }
                     // foreign attributes interleaved: every position x every foreign attribute
                     let full = mask + 1 == cuts || mask == 0;
                     if (thorough || asg == 0) && full {
